@@ -2,6 +2,7 @@
 import os
 from fractions import Fraction
 
+from ..core import api_call
 from ..gen import notes as G
 
 LEVEL = "exploration"
@@ -22,7 +23,8 @@ RULE = (
 ASSUMPTIONS = ["the generator renders cells to text faithfully", "fractions.Fraction is exact"]
 MONITORS = ["decode", "repeat_iteration", "interleaved_iteration", "ordering_ops", "str_identity", "columns", "via_chart"]
 REQUIRED = ["measure_repeated_after_empty_measures", "odd_rows", "rows_192", "rows_above_192", "keysound_shifts_later_column", "three_players", "crlf",
-            "same_position_pair", "cross_player_pair", "corpus_chart", "interleaved_passes_over_keysounded_rows"]
+            "same_position_pair", "cross_player_pair", "corpus_chart", "interleaved_passes_over_keysounded_rows",
+            "constructed_by_keyword", "note_beyond_measure_256", "measure_separator_on_a_row_line"]
 
 
 def anchors():
@@ -139,7 +141,16 @@ def check(ctx, case):
             if e[5] is not None:
                 seen.add(key)
 
-    nd = NoteData(text)
+    # the documented parameter name is part of the interface: every third chart is constructed by keyword
+    if ctx.evaluations % 3 == 1:
+        nd = api_call(ctx, "NoteData(source=)", NoteData, source=text)
+        ctx.feat("constructed_by_keyword")
+    else:
+        nd = NoteData(text)
+    if any(e[1] >= 4 * 256 * e[2] for e in exp):
+        ctx.feat("note_beyond_measure_256")
+    if "," in text and any("," in ln.strip() and ln.strip() != "," for ln in text.splitlines()):
+        ctx.feat("measure_separator_on_a_row_line")
     # every iteration of the object yields all notes: abandon one early, nest two, then take the full pass twice
     ctx.mon("repeat_iteration")
     it = iter(nd)
